@@ -396,9 +396,67 @@ fn run_free_op(line: &str) -> String {
                 Some(t) => format!("{}:{}", hex(t.class().as_bytes()), ohex(t.message())),
             }))
         }
+        "A" => or_panic(guarded(|| run_trace_ast(&toks[1..]))),
         "" => String::new(),
         _ => format!("UNKNOWN-OP {}", toks[0]),
     }
+}
+
+/// builds a StackTrace from the AST tokens through the public constructors, prints it,
+/// parses the text back and prints again
+fn run_trace_ast(toks: &[&str]) -> String {
+    // owned strings first, then borrow
+    #[derive(Default)]
+    struct Node {
+        exc: Option<(String, Option<String>)>,
+        frames: Vec<(String, String, String, usize)>,
+    }
+    let mut nodes = vec![Node::default()];
+    for t in toks {
+        if *t == "c" {
+            nodes.push(Node::default());
+            continue;
+        }
+        let f: Vec<&str> = t.split(':').collect();
+        let s = |x: &str| String::from_utf8(unhex(x)).expect("utf8");
+        let cur = nodes.last_mut().unwrap();
+        match f[0] {
+            "e" => cur.exc = Some((s(f[1]), if f[2] == "~" { None } else { Some(s(f[2])) })),
+            "f" => cur.frames.push((s(f[1]), s(f[2]), s(f[3]), f[4].parse().expect("line"))),
+            _ => return format!("BAD-TOKEN {}", t),
+        }
+    }
+    fn build<'a>(nodes: &'a [NodeRef<'a>]) -> StackTrace<'a> {
+        let n = &nodes[0];
+        let exc = n.exc.as_ref().map(|(c, m)| match m {
+            Some(m) => Throwable::with_message(c, m),
+            None => Throwable::new(c),
+        });
+        let frames: Vec<StackFrame> = n.frames.iter().map(|(c, m, f, l)| StackFrame::with_file(c, m, *l, f)).collect();
+        if nodes.len() > 1 {
+            StackTrace::with_cause(exc, frames, build(&nodes[1..]))
+        } else {
+            StackTrace::new(exc, frames)
+        }
+    }
+    type NodeRef<'a> = NodeB<'a>;
+    struct NodeB<'a> {
+        exc: Option<(&'a str, Option<&'a str>)>,
+        frames: Vec<(&'a str, &'a str, &'a str, usize)>,
+    }
+    let borrowed: Vec<NodeB> = nodes
+        .iter()
+        .map(|n| NodeB {
+            exc: n.exc.as_ref().map(|(c, m)| (c.as_str(), m.as_deref())),
+            frames: n.frames.iter().map(|(c, m, f, l)| (c.as_str(), m.as_str(), f.as_str(), *l)).collect(),
+        })
+        .collect();
+    let t = build(&borrowed);
+    let text = t.to_string();
+    let back = StackTrace::try_parse(text.as_bytes());
+    let rt = back.as_ref() == Some(&t);
+    let rp = back.as_ref().map_or(false, |b| b.to_string() == text);
+    format!("p={};rt={};rp={}", hex(text.as_bytes()), rt as u8, rp as u8)
 }
 
 fn is_group_op(l: &str) -> bool {
